@@ -210,6 +210,13 @@ pub fn check_derived(g: &G, alphabet: &Alphabet, deep: bool, c: &mut Counters, f
 }
 
 impl E1Oracle for C15Oracle {
+    fn warmup(&mut self, g: &G, alphabet: &Alphabet) {
+        let _ = g.get_subgraph(&alphabet.names);
+        let _ = g.reverse();
+        let _ = g.set_all_edge_weights(5.0);
+        let _ = g.to_single_edges();
+        let _ = (g.get_degree_for_all_nodes(), g.number_of_edges());
+    }
     fn state(&mut self, s: &StateCtx, rec: &Recorder, c: &mut Counters) {
         c.inc("states_checked");
         let tags = crate::c09::c09_tags(&Base::of(s.g));
